@@ -61,6 +61,11 @@ func Upgrade(ctx context.Context, c clientset.Interface, asc asclientset.Interfa
 		for key := range sts.Spec.Selector.MatchLabels {
 			delete(revision.Labels, key)
 		}
+		if revision.Labels == nil {
+			// a selector made of expressions only (NotIn, DoesNotExist) also
+			// selects revisions without any label
+			revision.Labels = map[string]string{}
+		}
 		revision.Labels[UpgradeToAdvancedStatefulSetAnn] = sts.Name
 		_, err = c.AppsV1().ControllerRevisions(revision.Namespace).Update(ctx, &revision, metav1.UpdateOptions{})
 		if err != nil {
